@@ -8,6 +8,7 @@ R19.1  document mapping keys are normalised before type-sensitive use: a key obt
 R19.2  sibling call sites agree: path-level and operation-level parameters are parsed with the same naming context
        (otherwise the name of a promoted inline schema depends on where / in which order it is declared)
 R19.3  response selection does not depend on the order of the `responses` mapping  [= R5.1 normal form]
+R19.7  a memo table kept on the parsing context is keyed by every parameter the stored conversion depends on (no first-caller-wins entries)
 R19.4  the loader dispatches on the file content, not on a lossy heuristic: JSON and YAML go through json.loads /
        yaml.safe_load only
 (order-independence of schema parsing: R8.x balance; sorted emission: R9.1)
@@ -60,6 +61,11 @@ def _strict_params(repo: Repo) -> Dict[str, Set[int]]:
 
 
 def run(repo: Repo, rep: Report, tier: str) -> None:
+    from rules._memo import persistent_memo_rule
+
+    persistent_memo_rule(repo, rep, "R19.7", ("core.loader", "core.parsing"),
+                         "The entry computed for the operation that happens to be parsed first (including the name of an inline schema promoted for it) is "
+                         "then served to every other operation: which models exist depends on the order of `paths` in the document")
     strict = _strict_params(repo)
     rep.count("R19.1:type_strict_parser_parameters", {k: sorted(v) for k, v in strict.items()})
     # ---------------------------------------------------------------- R19.1
